@@ -34,7 +34,7 @@ const DELAY: Duration = Duration::from_millis(15); // retry delay
 const T_BCAST: Duration = Duration::from_millis(3000);
 const WATCHDOG: Duration = Duration::from_secs(10);
 const HEALTHY_CALLS: usize = 3;
-const DEFAULT_TIMEOUT: Duration = Duration::from_secs(20); // FleetOptions.default_timeout, unused by a correct fleet
+const HEALTH_TIMEOUT: Duration = Duration::from_secs(5); // the fleets' DEFAULT_HEALTH_TIMEOUT
 /// Cases whose oracle failure was confirmed. After this many the remaining cases are not run: the
 /// verdict is settled, and a defect that makes every case slow must not make the run endless.
 static CONFIRMED: AtomicU64 = AtomicU64::new(0);
@@ -54,6 +54,136 @@ fn watchdog(full: Duration) -> Duration {
 // ------------------------------------------------------------------------------------------
 // behaviours
 // ------------------------------------------------------------------------------------------
+/// Parameters the property does not depend on, varied per case (one word `p=a.b.c…` of the op line, so
+/// a replay is exact; the model never sees it — its names and tags are the tokens of the op line, which
+/// the harness maps injectively to the strings actually used).
+#[derive(Clone, Copy, Default, Debug, PartialEq, Eq)]
+struct Pv {
+    nm: u8, // node-name style
+    tg: u8, // tag style
+    me: u8, // method / health endpoint style
+    pa: u8, // params of call_json / broadcast_json
+    to: u8, // node timeout
+    dl: u8, // retry delay
+    dt: u8, // FleetOptions.default_timeout
+    by: u8, // a second, healthy node in the fleet of a single-node case: 0 none, 1 present, 2 present and connected
+    cl: u8, // which handle operations go through: 0 the fleet, 1 alternately a held clone, 2 a fresh clone each
+    mf: u8, // which malformed reply the node sends
+    op: u8, // constructor: 0 `with_options`, 1 `new` (default options: 3 attempts, 1 s delay; only with max 3)
+}
+
+const PV_RANGES: [u8; 11] = [6, 6, 4, 5, 3, 4, 3, 3, 3, 3, 2];
+
+impl Pv {
+    fn fields(&self) -> [u8; 11] {
+        [self.nm, self.tg, self.me, self.pa, self.to, self.dl, self.dt, self.by, self.cl, self.mf, self.op]
+    }
+    fn from_fields(f: [u8; 11]) -> Pv {
+        Pv { nm: f[0], tg: f[1], me: f[2], pa: f[3], to: f[4], dl: f[5], dt: f[6], by: f[7], cl: f[8], mf: f[9], op: f[10] }
+    }
+    fn parse(w: &str) -> Option<Pv> {
+        let v: Vec<u8> = w.strip_prefix("p=")?.split('.').map(|x| x.parse::<u8>().ok()).collect::<Option<Vec<u8>>>()?;
+        if !(v.len() == 10 || v.len() == 11) || v.iter().zip(PV_RANGES).any(|(x, r)| *x >= r) {
+            return None;
+        }
+        let mut f = [0u8; 11];
+        f[..v.len()].copy_from_slice(&v);
+        Some(Pv::from_fields(f))
+    }
+    fn show(&self) -> String {
+        format!("p={}", self.fields().iter().map(|x| x.to_string()).collect::<Vec<_>>().join("."))
+    }
+    /// Each field: the ordinary value half of the time, otherwise any of its values.
+    fn random(rng: &mut Rng) -> Pv {
+        let mut f = [0u8; 11];
+        for (x, r) in f.iter_mut().zip(PV_RANGES).take(10) {
+            if rng.chance(1, 2) {
+                *x = rng.below(r as u64) as u8;
+            }
+        }
+        Pv::from_fields(f)
+    }
+    /// A refused connect is counted when the kernel's RST has been seen, and only then does the node go
+    /// on with its script: a fleet that reconnects with no delay at all can be refused a second time by
+    /// the same script element. Scripts with `refused` therefore never get the zero delay.
+    fn random_for(rng: &mut Rng, seq: &[Beh]) -> Pv {
+        let mut p = Pv::random(rng);
+        if p.dl == 1 && seq.contains(&Beh::Refused) {
+            p.dl = 2;
+        }
+        p
+    }
+    fn t_node(&self) -> Duration {
+        Duration::from_millis([80, 60, 120][self.to as usize])
+    }
+    fn delay(&self) -> Duration {
+        if self.op == 1 {
+            return Duration::from_secs(1); // DEFAULT_RETRY_DELAY
+        }
+        [Duration::from_millis(15), Duration::ZERO, Duration::from_millis(1), Duration::from_millis(40)][self.dl as usize]
+    }
+    /// `FleetOptions.default_timeout`: nothing a correct fleet does depends on it (the node's own timeout
+    /// governs), so it is either far longer or far shorter than every node timeout.
+    fn default_timeout(&self) -> Duration {
+        [Duration::from_secs(20), Duration::from_millis(1), Duration::from_millis(300)][self.dt as usize]
+    }
+    fn index_of(tok: &str) -> usize {
+        tok.trim_start_matches(|c: char| !c.is_ascii_digit()).parse().unwrap_or(0)
+    }
+    fn name(&self, tok: &str) -> String {
+        match self.nm {
+            0 => tok.to_string(),
+            1 => format!("узел·{tok}·節點"),
+            2 => format!("{tok}{}", "x".repeat(300)),
+            3 => format!("{tok} \"q\" \\ /{tok}\n\t"),
+            4 => "n".repeat(Pv::index_of(tok) + 1 + usize::from(tok == "by") * 9),
+            _ => {
+                if Pv::index_of(tok) == 0 && tok != "by" {
+                    "<unknown>".to_string()
+                } else {
+                    tok.to_string()
+                }
+            }
+        }
+    }
+    fn tag(&self, t: &str) -> String {
+        match (self.tg, t) {
+            (0, _) => t.to_string(),
+            (1, _) => format!("метка-{t}-標"),
+            (2, "a") => "tag".into(),
+            (2, "b") => "Tag".into(),
+            (2, "c") => "TAG".into(),
+            (2, _) => format!("tAG{t}"),
+            (3, "a") => "x".into(),
+            (3, "b") => "xx".into(),
+            (3, "c") => "x ".into(),
+            (3, _) => format!("xxx{t}"),
+            (4, "a") => "".into(),
+            (4, "b") => " ".into(),
+            (4, "c") => "\t".into(),
+            (4, _) => format!("\n{t}"),
+            (_, _) => format!("{}{t}", "t".repeat(1000)),
+        }
+    }
+    fn method(&self, base: &str) -> String {
+        match self.me {
+            0 => base.to_string(),
+            1 => format!("{base}/путь/✓"),
+            2 => format!("{base}/{}", "y".repeat(2000)),
+            _ => format!("{base}/a b\"c"),
+        }
+    }
+    fn params(&self) -> serde_json::Value {
+        match self.pa {
+            0 => serde_json::json!({"x": 1}),
+            1 => serde_json::Value::Null,
+            2 => serde_json::json!({"big": "z".repeat(65536)}),
+            3 => serde_json::json!({"ключ": ["值", 1.5, null, {"": []}]}),
+            _ => serde_json::json!([]),
+        }
+    }
+}
+
 #[derive(Clone, Copy, PartialEq, Eq, Debug, Hash)]
 enum Beh {
     Refused,
@@ -481,8 +611,12 @@ struct NodeSt {
 struct NodeShared {
     port: u16,
     id: u64,
-    /// error code of the `apperr` replies of this node (4096 application, 7 Timeout, 8 ResourceExhausted, 6 MethodNotFound)
+    /// error code of the `apperr` replies of this node (4096 application, 7 Timeout, 8 ResourceExhausted,
+    /// 6 MethodNotFound, 9 InternalError, 5 ParseError, 1 VersionMismatch, 2 InvalidHeader)
     app_code: AtomicU64,
+    /// which malformed reply the node sends (0: 48 bytes 0xEE; 1: a sound frame but for the magic; 2: a
+    /// header whose lengths contradict each other)
+    malformed_kind: AtomicU64,
     _placeholder: OwnedFd,
     st: Mutex<NodeSt>,
     cv: Condvar,
@@ -578,6 +712,18 @@ fn reply_frame(req: &RawFrame, ec: u32, body_format: u16, body: &[u8]) -> Vec<u8
     .to_vec()
 }
 
+/// What the node answers with at its `k`-th log entry: unique per node and contact, so that "reports
+/// that reply" can be checked as identity of content, not only of kind.
+fn reply_payload(node: u64, k: usize) -> String {
+    format!("{{\"r\":[{node},{k}]}}")
+}
+fn reply_detail(node: u64, k: usize) -> String {
+    format!("[{node},{k}]")
+}
+fn app_error_text(node: u64, k: usize) -> String {
+    format!("scripted application error {node}.{k}")
+}
+
 fn read_frame(s: &mut TcpStream) -> Option<RawFrame> {
     let mut hb = [0u8; 48];
     s.read_exact(&mut hb).ok()?;
@@ -617,12 +763,14 @@ fn handle_conn(sh: Arc<NodeShared>, mut s: TcpStream, id: u64) {
             finish(&sh, true);
             return;
         };
+        let log_index;
         let beh = {
             let mut st = sh.st.lock().unwrap();
             if req.query != st.token {
                 st.trouble = Some("stranger".into()); // a request that was meant for another node
             }
             let b = st.next_behaviour();
+            log_index = st.log.len();
             st.log.push(Contact { beh: b, via: Via::Request, t: Instant::now(), conn: id });
             if b == Beh::Idle {
                 st.idle_pending += 1;
@@ -633,19 +781,31 @@ fn handle_conn(sh: Arc<NodeShared>, mut s: TcpStream, id: u64) {
         let mut close = false;
         match beh {
             Beh::Success => {
-                let _ = s.write_all(&reply_frame(&req, 0, 2, b"{\"ok\":true}"));
+                let _ = s.write_all(&reply_frame(&req, 0, 2, reply_payload(sh.id, log_index).as_bytes()));
             }
             Beh::AppErr => {
                 let code = sh.app_code.load(Ordering::SeqCst) as u32;
-                let _ = s.write_all(&reply_frame(&req, code, 3, b"scripted application error"));
+                let _ = s.write_all(&reply_frame(&req, code, 3, app_error_text(sh.id, log_index).as_bytes()));
             }
             Beh::Malformed => {
-                let _ = s.write_all(&[0xEEu8; 48]);
+                let _ = match sh.malformed_kind.load(Ordering::SeqCst) {
+                    0 => s.write_all(&[0xEEu8; 48]),
+                    1 => {
+                        let mut f = reply_frame(&req, 0, 2, b"{}");
+                        f[8..10].copy_from_slice(&0x1508u16.to_le_bytes()); // the magic, everything else sound
+                        s.write_all(&f)
+                    }
+                    _ => {
+                        let mut f = reply_frame(&req, 0, 2, b"{}");
+                        f[0..8].copy_from_slice(&47u64.to_le_bytes()); // length below the header size
+                        s.write_all(&f)
+                    }
+                };
             }
             Beh::Silent => {}
             Beh::Atc | Beh::Refused => close = true,
             Beh::Idle => {
-                let _ = s.write_all(&reply_frame(&req, 0, 2, b"{\"ok\":true}"));
+                let _ = s.write_all(&reply_frame(&req, 0, 2, reply_payload(sh.id, log_index).as_bytes()));
                 let _ = s.shutdown(Shutdown::Write);
                 // the client's reader sees EOF, fails its pending map and shuts its socket down: FIN
                 let mut b = [0u8; 64];
@@ -741,6 +901,7 @@ impl Node {
             port,
             id,
             app_code: AtomicU64::new(4096),
+            malformed_kind: AtomicU64::new(0),
             _placeholder: ph,
             st: Mutex::new(NodeSt {
                 script,
@@ -781,8 +942,8 @@ impl Node {
     /// Which error code the node's application errors carry: derived from the case's index token, so a
     /// replay uses the same one. Whatever the code, an error *reply* ends the call.
     fn set_app_code_for(&self, idx: &str) {
-        let codes = [4096u64, 7, 8, 6];
-        self.sh.app_code.store(codes[(fnv(idx.as_bytes()) % 4) as usize], Ordering::SeqCst);
+        let codes = [4096u64, 7, 8, 6, 9, 5, 1, 2];
+        self.sh.app_code.store(codes[(fnv(idx.as_bytes()) % 8) as usize], Ordering::SeqCst);
     }
     fn set_token(&self, t: &str) {
         self.sh.st.lock().unwrap().token = t.as_bytes().to_vec();
@@ -872,6 +1033,7 @@ fn class_of_result<T>(value: &Option<T>, error: &Option<RepeError>) -> String {
     }
 }
 
+#[derive(Clone)]
 enum AnyFleet {
     B(Fleet),
     A(AsyncFleet),
@@ -882,51 +1044,80 @@ struct Env {
     rt: tokio::runtime::Runtime,
 }
 
+/// What a call returned: its class (what the model predicts) and, for a reply, its content.
+struct Returned {
+    class: String,
+    /// `ok`: the `r` member of the reply's JSON body; `Server`: `<code>:<message>`
+    detail: Option<String>,
+}
+
+fn returned_json(r: repe::RemoteResult<serde_json::Value>) -> Returned {
+    let class = class_of_result(&r.value, &r.error);
+    let detail = match (&r.value, &r.error) {
+        (_, Some(RepeError::ServerError { code, message })) => Some(format!("{}:{message}", u32::from(*code))),
+        (Some(v), None) => Some(v.get("r").map_or("?".to_string(), |x| x.to_string())),
+        _ => None,
+    };
+    Returned { class, detail }
+}
+
+fn returned_message(r: repe::RemoteResult<repe::Message>) -> Returned {
+    let class = class_of_result(&r.value, &r.error);
+    let detail = match (&r.value, &r.error) {
+        (_, Some(RepeError::ServerError { code, message })) => Some(format!("{}:{message}", u32::from(*code))),
+        (Some(m), None) => Some(
+            serde_json::from_slice::<serde_json::Value>(&m.body).ok().and_then(|v| v.get("r").map(|x| x.to_string())).unwrap_or("?".into()),
+        ),
+        _ => None,
+    };
+    Returned { class, detail }
+}
+
 impl AnyFleet {
-    fn new(kind: &str, configs: Vec<NodeConfig>, max: usize, delay: Duration) -> AnyFleet {
+    fn new(kind: &str, configs: Vec<NodeConfig>, max: usize, pv: &Pv) -> AnyFleet {
+        AnyFleet::with_delay(kind, configs, max, pv.delay(), pv)
+    }
+    fn with_delay(kind: &str, configs: Vec<NodeConfig>, max: usize, delay: Duration, pv: &Pv) -> AnyFleet {
         // the fleet-wide default differs from every node's own timeout: it must never be what a call waits for
-        let opts = FleetOptions { default_timeout: DEFAULT_TIMEOUT, retry_policy: RetryPolicy { max_attempts: max, delay } };
+        let opts = FleetOptions { default_timeout: pv.default_timeout(), retry_policy: RetryPolicy { max_attempts: max, delay } };
+        if pv.op == 1 {
+            // the twin constructor: default options. Only meaningful for a case that says max_attempts 3.
+            assert_eq!(max, 3, "p.op=1 needs max 3");
+            let f = match kind {
+                "b" => AnyFleet::B(Fleet::new(configs).expect("fleet")),
+                _ => AnyFleet::A(AsyncFleet::new(configs).expect("fleet")),
+            };
+            let o = match &f {
+                AnyFleet::B(f) => f.options(),
+                AnyFleet::A(f) => f.options(),
+            };
+            assert_eq!((o.retry_policy.max_attempts, o.retry_policy.delay), (3, Duration::from_secs(1)), "documented defaults");
+            return f;
+        }
         match kind {
             "b" => AnyFleet::B(Fleet::with_options(configs, opts).expect("fleet options")),
             _ => AnyFleet::A(AsyncFleet::with_options(configs, opts).expect("fleet options")),
         }
     }
-    fn call(&self, env: &Env, variant: &str, method: &str) -> String {
-        let params = serde_json::json!({"x": 1});
+    fn call(&self, env: &Env, variant: &str, name: &str, method: &str, params: &serde_json::Value) -> Returned {
+        // the node exists in every case: a `FleetError` here is a call that reported neither a reply nor a transport error
+        let refused = |e: repe::FleetError| Returned { class: format!("FleetError({})", format!("{e:?}").split('(').next().unwrap_or("?")), detail: None };
         match (self, variant) {
-            (AnyFleet::B(f), "json") => {
-                let r = f.call_json("n", method, Some(&params)).expect("node exists");
-                class_of_result(&r.value, &r.error)
-            }
-            (AnyFleet::B(f), "jsonnp") => {
-                let r = f.call_json("n", method, None).expect("node exists");
-                class_of_result(&r.value, &r.error)
-            }
-            (AnyFleet::B(f), _) => {
-                let r = f.call_message("n", method).expect("node exists");
-                class_of_result(&r.value, &r.error)
-            }
-            (AnyFleet::A(f), "json") => {
-                let r = env.rt.block_on(f.call_json("n", method, Some(&params))).expect("node exists");
-                class_of_result(&r.value, &r.error)
-            }
-            (AnyFleet::A(f), "jsonnp") => {
-                let r = env.rt.block_on(f.call_json("n", method, None)).expect("node exists");
-                class_of_result(&r.value, &r.error)
-            }
-            (AnyFleet::A(f), _) => {
-                let r = env.rt.block_on(f.call_message("n", method)).expect("node exists");
-                class_of_result(&r.value, &r.error)
-            }
+            (AnyFleet::B(f), "json") => f.call_json(name, method, Some(params)).map_or_else(refused, returned_json),
+            (AnyFleet::B(f), "jsonnp") => f.call_json(name, method, None).map_or_else(refused, returned_json),
+            (AnyFleet::B(f), _) => f.call_message(name, method).map_or_else(refused, returned_message),
+            (AnyFleet::A(f), "json") => env.rt.block_on(f.call_json(name, method, Some(params))).map_or_else(refused, returned_json),
+            (AnyFleet::A(f), "jsonnp") => env.rt.block_on(f.call_json(name, method, None)).map_or_else(refused, returned_json),
+            (AnyFleet::A(f), _) => env.rt.block_on(f.call_message(name, method)).map_or_else(refused, returned_message),
         }
     }
-    /// `connect_all`: was "n" reported connected (Some(true)), failed (Some(false)) or neither (None)
-    fn connect_all(&self, env: &Env) -> Option<bool> {
+    /// `connect_all`: was `name` reported connected (Some(true)), failed (Some(false)) or neither (None)
+    fn connect_all(&self, env: &Env, name: &str) -> Option<bool> {
         let s = match self {
             AnyFleet::B(f) => f.connect_all(),
             AnyFleet::A(f) => env.rt.block_on(f.connect_all()),
         };
-        if s.connected.iter().any(|x| x == "n") { Some(true) } else if s.failed.iter().any(|x| x == "n") { Some(false) } else { None }
+        if s.connected.iter().any(|x| x == name) { Some(true) } else if s.failed.iter().any(|x| x == name) { Some(false) } else { None }
     }
     fn disconnect_all(&self, env: &Env) {
         match self {
@@ -934,20 +1125,20 @@ impl AnyFleet {
             AnyFleet::A(f) => drop(env.rt.block_on(f.disconnect_all())),
         }
     }
-    fn reconnect(&self, env: &Env) -> Option<bool> {
+    fn reconnect(&self, env: &Env, name: &str) -> Option<bool> {
         let s = match self {
             AnyFleet::B(f) => f.reconnect_disconnected(),
             AnyFleet::A(f) => env.rt.block_on(f.reconnect_disconnected()),
         };
-        if s.reconnected.iter().any(|x| x == "n") { Some(true) } else if s.failed.iter().any(|x| x == "n") { Some(false) } else { None }
+        if s.reconnected.iter().any(|x| x == name) { Some(true) } else if s.failed.iter().any(|x| x == name) { Some(false) } else { None }
     }
-    /// `health_check`: class of the verdict for "n" (`ok` = healthy)
-    fn health(&self, env: &Env, method: &str) -> String {
+    /// `health_check`: class of the verdict for `name` (`ok` = healthy)
+    fn health(&self, env: &Env, name: &str, method: &str) -> String {
         let mut m = match self {
             AnyFleet::B(f) => f.health_check(method),
             AnyFleet::A(f) => env.rt.block_on(f.health_check(method)),
         };
-        match m.remove("n") {
+        match m.remove(name) {
             None => "None".into(),
             Some(h) => match (h.healthy, &h.error) {
                 (true, None) => "ok".into(),
@@ -958,9 +1149,55 @@ impl AnyFleet {
     }
     fn is_connected(&self, env: &Env, name: &str) -> bool {
         match self {
-            AnyFleet::B(f) => f.is_connected(name).expect("node exists"),
-            AnyFleet::A(f) => env.rt.block_on(f.is_connected(name)).expect("node exists"),
+            AnyFleet::B(f) => f.is_connected(name).unwrap_or(false),
+            AnyFleet::A(f) => env.rt.block_on(f.is_connected(name)).unwrap_or(false),
         }
+    }
+}
+
+/// The fleet of a single-node case as the operations see it: the node under test is `n` (its real name
+/// is styled), a healthy bystander node may be present, and operations go through the fleet itself, a
+/// held clone, or a fresh clone each time — every handle shares the one node table and client slots.
+struct Handles {
+    orig: AnyFleet,
+    held: AnyFleet,
+    pv: Pv,
+    n: String,
+    params: serde_json::Value,
+    k: std::cell::Cell<usize>,
+}
+
+impl Handles {
+    fn new(kind: &str, configs: Vec<NodeConfig>, max: usize, pv: &Pv, n: String) -> Handles {
+        let orig = AnyFleet::new(kind, configs, max, pv);
+        Handles { held: orig.clone(), orig, pv: *pv, n, params: pv.params(), k: std::cell::Cell::new(0) }
+    }
+    fn with<R>(&self, f: impl FnOnce(&AnyFleet) -> R) -> R {
+        let k = self.k.get();
+        self.k.set(k + 1);
+        match self.pv.cl {
+            0 => f(&self.orig),
+            1 => f(if k % 2 == 1 { &self.held } else { &self.orig }),
+            _ => f(&self.orig.clone()),
+        }
+    }
+    fn call(&self, env: &Env, variant: &str, method: &str) -> Returned {
+        self.with(|f| f.call(env, variant, &self.n, method, &self.params))
+    }
+    fn connect_all(&self, env: &Env) -> Option<bool> {
+        self.with(|f| f.connect_all(env, &self.n))
+    }
+    fn disconnect_all(&self, env: &Env) {
+        self.with(|f| f.disconnect_all(env))
+    }
+    fn reconnect(&self, env: &Env) -> Option<bool> {
+        self.with(|f| f.reconnect(env, &self.n))
+    }
+    fn health(&self, env: &Env, method: &str) -> String {
+        self.with(|f| f.health(env, &self.n, method))
+    }
+    fn is_connected(&self, env: &Env) -> bool {
+        self.with(|f| f.is_connected(env, &self.n))
     }
 }
 
@@ -977,6 +1214,14 @@ struct CallRec {
     /// the first attempt ran on a cached client (dead: no contact; live: a request on an old connection)
     pre_conn: bool,
     conn_mark: u64,
+    /// content of what was returned (see `Returned`), and what is needed to say what it should be
+    detail: Option<String>,
+    node_id: u64,
+    log_base: usize,
+    app_code: u32,
+    /// the node's timeout and the retry delay of this case
+    t_node: Duration,
+    delay: Duration,
 }
 
 #[derive(Default)]
@@ -988,6 +1233,14 @@ struct CaseOut {
     fails: Vec<(String, String)>,
     nontrivial: bool,
     counters: Vec<String>,
+}
+
+/// Coverage evidence: which value of each varied parameter the judged cases had.
+fn pv_counters(pv: &Pv, counters: &mut Vec<String>) {
+    let names = ["name_style", "tag_style", "method_style", "params", "node_timeout", "retry_delay", "default_timeout", "bystander", "handle", "malformed_kind", "constructor"];
+    for (n, v) in names.iter().zip(pv.fields()) {
+        counters.push(format!("param.{n}.{v}"));
+    }
 }
 
 fn kind_name(kind: &str) -> &'static str {
@@ -1020,6 +1273,10 @@ fn check_call(kind: &str, max: usize, c: &CallRec, what: &str, sniffer_dependent
         c.t1.saturating_duration_since(c.t0).as_millis(),
         max
     );
+    // the fleet did not recognise its own node
+    if c.res.starts_with("FleetError") {
+        return Verdict::Fail(format!("fleet.{k}.report.neither_reply_nor_error"), ctx);
+    }
     // ---- evidence that depends on the sniffer must be complete and agree with what the fleet says ----
     // a refusal stamped before the call began was emitted for an earlier call and counted late
     if c.contacts.iter().any(|x| x.via == Via::Connect && x.t < c.t0) {
@@ -1046,8 +1303,9 @@ fn check_call(kind: &str, max: usize, c: &CallRec, what: &str, sniffer_dependent
     if n > max {
         return Verdict::Fail(format!("fleet.{k}.attempts.exceeds_max"), ctx);
     }
-    // each attempt waits for the node's own timeout (80 ms), not for the fleet-wide default (20 s)
-    if !health && c.t1.saturating_duration_since(c.t0) > (T_NODE + DELAY) * max as u32 + Duration::from_secs(5) {
+    // each attempt waits for the node's own timeout (60–120 ms), not for the fleet-wide default (20 s)
+    // (at most one attempt more than the node saw can have been made: one on a dead cached client)
+    if !health && c.t1.saturating_duration_since(c.t0) > (c.t_node + c.delay) * (n as u32 + 1) + Duration::from_secs(5) {
         return Verdict::Fail(format!("fleet.{k}.timeout.not_the_nodes"), ctx);
     }
     // the node read a request only after the fleet call had returned: the client did not wait for the
@@ -1058,19 +1316,20 @@ fn check_call(kind: &str, max: usize, c: &CallRec, what: &str, sniffer_dependent
     // lower bounds of the instants the client sent each attempt: it moves on when it has seen the
     // node's action (after the node read the request) or when its timeout fired
     let mut refs = Vec::with_capacity(n);
-    let mut r = c.t0;
+    // (an attempt on a dead cached client fails at once and is followed by the retry delay)
+    let mut r = c.t0 + if c.pre_conn && !reused { c.delay } else { Duration::ZERO };
     for x in &c.contacts {
         refs.push(r);
         r = match (x.beh, x.via) {
-            (Beh::Silent, _) => r + T_NODE,
+            (Beh::Silent, _) => r + c.t_node,
             (Beh::Refused, Via::Connect) => r,
-            _ => x.t.max(r).min(r + T_NODE),
-        };
+            _ => x.t.max(r).min(r + c.t_node),
+        } + c.delay; // the fleet sleeps for the retry delay before the next attempt
     }
     // a request the node read T or more after the earliest instant the client can have sent it may
     // already have been given up by the client (timeout on a starved node thread): not judged
     for (x, r) in c.contacts.iter().zip(&refs) {
-        if x.via == Via::Request && x.t.saturating_duration_since(*r) >= T_NODE {
+        if x.via == Via::Request && x.t.saturating_duration_since(*r) >= c.t_node {
             return Verdict::Skip("node_lagged".into());
         }
     }
@@ -1079,7 +1338,7 @@ fn check_call(kind: &str, max: usize, c: &CallRec, what: &str, sniffer_dependent
         let b = c.contacts[i].beh;
         if b.is_reply() || b == Beh::Malformed {
             // the client retried after the node answered; legitimate only if the answer came too late
-            if c.contacts[i + 1].t.saturating_duration_since(refs[i]) < T_NODE {
+            if c.contacts[i + 1].t.saturating_duration_since(refs[i]) < c.t_node {
                 let sig = if b.is_reply() { "retry_after_reply" } else { "retry_after_nontransport" };
                 return Verdict::Fail(format!("fleet.{k}.{sig}.{}", b.name()), ctx);
             }
@@ -1087,7 +1346,7 @@ fn check_call(kind: &str, max: usize, c: &CallRec, what: &str, sniffer_dependent
         }
     }
     // (4) reports the reply or the last transport error
-    let timed_out_late = c.res == "Io(TimedOut)" && n > 0 && c.t1.saturating_duration_since(refs[n - 1]) >= T_NODE;
+    let timed_out_late = c.res == "Io(TimedOut)" && n > 0 && c.t1.saturating_duration_since(refs[n - 1]) >= c.t_node;
     match c.contacts.last() {
         None => {
             if c.res == "ok" {
@@ -1119,6 +1378,23 @@ fn check_call(kind: &str, max: usize, c: &CallRec, what: &str, sniffer_dependent
                 };
                 return Verdict::Fail(format!("fleet.{k}.{sig}"), ctx);
             }
+            // "reports that reply": the content is the one the node sent at this, the final, contact
+            if !health {
+                let k_last = c.log_base + n - 1;
+                let want_detail = match last.beh {
+                    Beh::Success | Beh::Idle => Some(reply_detail(c.node_id, k_last)),
+                    Beh::AppErr => Some(format!("{}:{}", c.app_code, app_error_text(c.node_id, k_last))),
+                    _ => None,
+                };
+                if let (Some(w), Some(got)) = (&want_detail, &c.detail) {
+                    if w != got {
+                        return Verdict::Fail(
+                            format!("fleet.{k}.report.not_the_reply"),
+                            format!("{ctx}; the node's reply at that contact was {w}, the fleet returned {got}"),
+                        );
+                    }
+                }
+            }
         }
     }
     Verdict::Fine
@@ -1128,21 +1404,83 @@ fn show_call(c: &CallRec) -> String {
     format!("{}:{}:{}", c.contacts.len(), c.res, c.conn as u8)
 }
 
-fn one_call(env: &Env, fleet: &AnyFleet, node: &Node, variant: &str) -> Result<CallRec, String> {
+fn one_call(env: &Env, fleet: &Handles, node: &Node, variant: &str) -> Result<CallRec, String> {
     let n0 = node.log_len();
-    let pre_conn = fleet.is_connected(env, "n");
+    let pre_conn = fleet.is_connected(env);
     let conn_mark = node.sh.st.lock().unwrap().next_conn;
     let t0 = Instant::now();
-    let res = fleet.call(env, variant, &node.method());
+    let ret = fleet.call(env, variant, &node.method());
     let t1 = Instant::now();
     node.settle()?;
     if let Some(t) = node.trouble() {
         return Err(t);
     }
-    Ok(CallRec { contacts: node.log_from(n0), res, conn: fleet.is_connected(env, "n"), t0, t1, pre_conn, conn_mark })
+    Ok(CallRec {
+        contacts: node.log_from(n0),
+        res: ret.class,
+        conn: fleet.is_connected(env),
+        t0,
+        t1,
+        pre_conn,
+        conn_mark,
+        detail: ret.detail,
+        node_id: node.sh.id,
+        log_base: n0,
+        app_code: node.sh.app_code.load(Ordering::SeqCst) as u32,
+        t_node: fleet.pv.t_node(),
+        delay: fleet.pv.delay(),
+    })
 }
 
-fn run_case(env: &Env, idx: &str, kind: &str, variant: &str, max: usize, seq: &[Beh]) -> CaseOut {
+/// The node under test, an optional healthy bystander node, and the fleet over them.
+struct Rig {
+    node: Node,
+    by: Option<Node>,
+    fleet: Handles,
+}
+
+fn build_rig(env: &Env, idx: &str, kind: &str, max: usize, seq: &[Beh], pv: &Pv) -> Result<Rig, String> {
+    let mk = |script: Vec<Beh>| Node::new(script, env.sniffer.clone()).map_err(|e| format!("node_{:?}:{e}", e.kind()));
+    let node = mk(seq.to_vec())?;
+    node.set_app_code_for(idx);
+    node.sh.malformed_kind.store(pv.mf as u64, Ordering::SeqCst);
+    node.set_token(&pv.method(&node.method()));
+    let mut configs = vec![NodeConfig::new(node_host(), node.port()).unwrap().with_name(pv.name("n")).unwrap().with_timeout(pv.t_node()).unwrap()];
+    let by = if pv.by > 0 { Some(mk(vec![])?) } else { None };
+    if let Some(b) = &by {
+        configs.push(NodeConfig::new(node_host(), b.port()).unwrap().with_name(pv.name("by")).unwrap().with_timeout(T_BCAST).unwrap());
+    }
+    let fleet = Handles::new(kind, configs, max, pv, pv.name("n"));
+    if let (2, Some(b)) = (pv.by, &by) {
+        // the bystander has a live cached client before the case begins
+        if fleet.orig.call(env, "json", &pv.name("by"), &b.method(), &fleet.params).class != "ok" {
+            return Err("bystander_setup".into());
+        }
+    }
+    Ok(Rig { node, by, fleet })
+}
+
+/// The bystander was healthy throughout: a call to it succeeds (the second one if only one attempt is
+/// allowed and an operation of the case left it a dead or dropped client).
+fn bystander_check(env: &Env, rig: &Rig, kind: &str, max: usize) -> Option<(String, String)> {
+    let b = rig.by.as_ref()?;
+    let name = rig.fleet.pv.name("by");
+    let allowed = if max >= 2 { 1 } else { 2 };
+    let mut seen = vec![];
+    for _ in 0..allowed {
+        let r = rig.fleet.orig.call(env, "json", &name, &b.method(), &rig.fleet.params);
+        if r.class == "ok" {
+            return None;
+        }
+        seen.push(r.class);
+    }
+    Some((
+        format!("fleet.{}.bystander.wedged", kind_name(kind)),
+        format!("a second node of the fleet that was healthy throughout the case answers {:?} to {allowed} call(s) with max_attempts={max}", seen),
+    ))
+}
+
+fn run_case(env: &Env, idx: &str, kind: &str, variant: &str, max: usize, seq: &[Beh], pv: &Pv) -> CaseOut {
     let mut out = CaseOut::default();
     if seq.contains(&Beh::Refused) && env.sniffer.is_none() {
         out.skip = Some("no_sniffer".into());
@@ -1156,16 +1494,14 @@ fn run_case(env: &Env, idx: &str, kind: &str, variant: &str, max: usize, seq: &[
             return out;
         }
     }
-    let node = match Node::new(seq.to_vec(), env.sniffer.clone()) {
-        Ok(n) => n,
+    let rig = match build_rig(env, idx, kind, max, seq, pv) {
+        Ok(r) => r,
         Err(e) => {
-            out.skip = Some(format!("node_{:?}:{e}", e.kind()));
+            out.skip = Some(e);
             return out;
         }
     };
-    node.set_app_code_for(idx);
-    let cfg = NodeConfig::new(node_host(), node.port()).unwrap().with_name("n").unwrap().with_timeout(T_NODE).unwrap();
-    let fleet = AnyFleet::new(kind, vec![cfg], max, DELAY);
+    let (node, fleet) = (&rig.node, &rig.fleet);
     let mut script_calls = vec![];
     let mut healthy_calls = vec![];
     let mut recovered: Option<usize> = None;
@@ -1174,11 +1510,11 @@ fn run_case(env: &Env, idx: &str, kind: &str, variant: &str, max: usize, seq: &[
             if node.exhausted() {
                 break;
             }
-            script_calls.push(one_call(env, &fleet, &node, variant)?);
+            script_calls.push(one_call(env, fleet, node, variant)?);
         }
         node.set_healthy();
         for i in 0..HEALTHY_CALLS {
-            let c = one_call(env, &fleet, &node, variant)?;
+            let c = one_call(env, fleet, node, variant)?;
             let ok = c.res == "ok";
             healthy_calls.push(c);
             if ok {
@@ -1237,6 +1573,9 @@ fn run_case(env: &Env, idx: &str, kind: &str, variant: &str, max: usize, seq: &[
             ),
         ));
     }
+    if let Some(f) = bystander_check(env, &rig, kind, max) {
+        out.fails.push(f);
+    }
     let mut words = vec![idx.to_string(), "s".into()];
     words.extend(script_calls.iter().map(show_call));
     words.push("|".into());
@@ -1275,7 +1614,8 @@ fn run_case(env: &Env, idx: &str, kind: &str, variant: &str, max: usize, seq: &[
             out.counters.push(format!("contact.{}", x.beh.name()));
         }
     }
-    out.counters.push(format!("case.{}.max{}.len{}", kind_name(kind), max, seq.len()));
+    out.counters.push(format!("case.{}.max{}.len{}", kind_name(kind), max.to_string(), seq.len()));
+    pv_counters(pv, &mut out.counters);
     out.counters.push(format!("variant.{variant}"));
     out
 }
@@ -1284,7 +1624,7 @@ fn run_case(env: &Env, idx: &str, kind: &str, variant: &str, max: usize, seq: &[
 // ------------------------------------------------------------------------------------------
 // connection management and health check, mixed with calls
 // ------------------------------------------------------------------------------------------
-fn run_life(env: &Env, idx: &str, kind: &str, max: usize, seq: &[Beh], ops: &[String]) -> CaseOut {
+fn run_life(env: &Env, idx: &str, kind: &str, max: usize, seq: &[Beh], ops: &[String], pv: &Pv) -> CaseOut {
     let mut out = CaseOut::default();
     let k = kind_name(kind);
     if seq.contains(&Beh::Refused) && env.sniffer.is_none() {
@@ -1298,16 +1638,14 @@ fn run_life(env: &Env, idx: &str, kind: &str, max: usize, seq: &[Beh], ops: &[St
             return out;
         }
     }
-    let node = match Node::new(seq.to_vec(), env.sniffer.clone()) {
-        Ok(n) => n,
+    let rig = match build_rig(env, idx, kind, max, seq, pv) {
+        Ok(r) => r,
         Err(e) => {
-            out.skip = Some(format!("node_{:?}:{e}", e.kind()));
+            out.skip = Some(e);
             return out;
         }
     };
-    node.set_app_code_for(idx);
-    let cfg = NodeConfig::new(node_host(), node.port()).unwrap().with_name("n").unwrap().with_timeout(T_NODE).unwrap();
-    let fleet = AnyFleet::new(kind, vec![cfg], max, DELAY);
+    let (node, fleet) = (&rig.node, &rig.fleet);
     let sd = seq.contains(&Beh::Refused);
     let mut words = vec![idx.to_string(), "o".to_string()];
     let mut dead: Vec<String> = vec![];
@@ -1319,7 +1657,7 @@ fn run_life(env: &Env, idx: &str, kind: &str, max: usize, seq: &[Beh], ops: &[St
             let what = format!("operation {} ({op})", i + 1);
             match op.as_str() {
                 "call" => {
-                    let c = one_call(env, &fleet, &node, "json")?;
+                    let c = one_call(env, fleet, node, "json")?;
                     verdicts.push(check_call(kind, max, &c, &what, sd));
                     if c.contacts.is_empty() && c.res.starts_with("Io(") {
                         dead.push(c.res[3..c.res.len() - 1].to_string());
@@ -1328,7 +1666,7 @@ fn run_life(env: &Env, idx: &str, kind: &str, max: usize, seq: &[Beh], ops: &[St
                 }
                 "health" => {
                     let n0 = node.log_len();
-                    let pre_conn = fleet.is_connected(env, "n");
+                    let pre_conn = fleet.is_connected(env);
                     let conn_mark = node.sh.st.lock().unwrap().next_conn;
                     let t0 = Instant::now();
                     let res = fleet.health(env, &node.method());
@@ -1337,7 +1675,21 @@ fn run_life(env: &Env, idx: &str, kind: &str, max: usize, seq: &[Beh], ops: &[St
                     if let Some(t) = node.trouble() {
                         return Err(t);
                     }
-                    let c = CallRec { contacts: node.log_from(n0), res, conn: fleet.is_connected(env, "n"), t0, t1, pre_conn, conn_mark };
+                    let c = CallRec {
+                        contacts: node.log_from(n0),
+                        res,
+                        conn: fleet.is_connected(env),
+                        t0,
+                        t1,
+                        pre_conn,
+                        conn_mark,
+                        detail: None,
+                        node_id: node.sh.id,
+                        log_base: n0,
+                        app_code: 0,
+                        t_node: HEALTH_TIMEOUT,
+                        delay: Duration::ZERO,
+                    };
                     // a health check is one attempt: the clauses of a call with max_attempts = 1 …
                     verdicts.push(check_call(kind, 1, &c, &what, sd));
                     // … and an unhealthy verdict must not leave a client (least of all a dead one) behind
@@ -1353,14 +1705,14 @@ fn run_life(env: &Env, idx: &str, kind: &str, max: usize, seq: &[Beh], ops: &[St
                     words.push(format!("health:{}", show_call(&c)));
                 }
                 "conn" | "reconn" => {
-                    let was = fleet.is_connected(env, "n");
+                    let was = fleet.is_connected(env);
                     let n0 = node.log_len();
                     let r = if op == "conn" { fleet.connect_all(env) } else { fleet.reconnect(env) };
                     node.settle()?;
                     if let Some(t) = node.trouble() {
                         return Err(t);
                     }
-                    let conn = fleet.is_connected(env, "n");
+                    let conn = fleet.is_connected(env);
                     // the fleet says the connect failed: the node's log must show the counted refusal
                     // (and only a refusal can be in the log of a bare connect)
                     let seen: Vec<Contact> = node.log_from(n0);
@@ -1391,7 +1743,7 @@ fn run_life(env: &Env, idx: &str, kind: &str, max: usize, seq: &[Beh], ops: &[St
                 "disc" => {
                     fleet.disconnect_all(env);
                     node.settle()?;
-                    let conn = fleet.is_connected(env, "n");
+                    let conn = fleet.is_connected(env);
                     if conn {
                         verdicts.push(Verdict::Fail(format!("fleet.{k}.disconnect_all.still_connected"), what.clone()));
                     }
@@ -1402,7 +1754,7 @@ fn run_life(env: &Env, idx: &str, kind: &str, max: usize, seq: &[Beh], ops: &[St
         }
         node.set_healthy();
         for i in 0..HEALTHY_CALLS {
-            let c = one_call(env, &fleet, &node, "json")?;
+            let c = one_call(env, fleet, node, "json")?;
             let ok = c.res == "ok";
             healthy_calls.push(c);
             if ok {
@@ -1421,6 +1773,9 @@ fn run_life(env: &Env, idx: &str, kind: &str, max: usize, seq: &[Beh], ops: &[St
             out.skip = Some("sniffer_drops".into());
             return out;
         }
+    }
+    if let Some(f) = bystander_check(env, &rig, kind, max) {
+        verdicts.push(Verdict::Fail(f.0, f.1));
     }
     for (i, c) in healthy_calls.iter().enumerate() {
         verdicts.push(check_call(kind, max, c, &format!("healthy call {}", i + 1), sd));
@@ -1467,6 +1822,7 @@ fn run_life(env: &Env, idx: &str, kind: &str, max: usize, seq: &[Beh], ops: &[St
         out.counters.push(format!("life.{op}"));
     }
     out.counters.push(format!("life.{k}.ops{}.len{}", ops.len(), seq.len()));
+    pv_counters(pv, &mut out.counters);
     out
 }
 
@@ -1502,7 +1858,65 @@ fn parse_bc_nodes(s: &str) -> Option<Vec<BcNode>> {
     Some(v)
 }
 
-fn run_bc(env: &Env, idx: &str, kind: &str, max: usize, nodes: &[BcNode], req: &[String], map_reduce: bool) -> CaseOut {
+/// How the reducer of a `map_reduce_json` behaves.
+#[derive(Clone, Copy, PartialEq, Eq)]
+enum Reducer {
+    Collect,
+    PanicString,
+    PanicStr,
+    PanicOther,
+    Slow,
+}
+
+impl AnyFleet {
+    /// `broadcast_json` (or `map_reduce_json`): (node name, what it returned) per result
+    fn broadcast(&self, env: &Env, method: &str, params: Option<&serde_json::Value>, req: &[String], reducer: Option<Reducer>) -> Vec<(String, Returned)> {
+        let one = |r: repe::RemoteResult<serde_json::Value>| (r.node.clone(), returned_json(r));
+        let reduce = move |red: Reducer, v: Vec<repe::RemoteResult<serde_json::Value>>| -> Vec<(String, Returned)> {
+            match red {
+                Reducer::PanicString => std::panic::panic_any(format!("reducer panics with a String over {} results", v.len())),
+                Reducer::PanicStr => std::panic::panic_any("reducer panics with a &'static str"),
+                Reducer::PanicOther => std::panic::panic_any(4711i32),
+                Reducer::Slow => std::thread::sleep(Duration::from_millis(30)),
+                Reducer::Collect => {}
+            }
+            v.into_iter().map(one).collect()
+        };
+        match (self, reducer) {
+            (AnyFleet::B(f), None) => f.broadcast_json(method, params, req).into_iter().map(|(k, r)| (k, returned_json(r))).collect(),
+            (AnyFleet::B(f), Some(red)) => f.map_reduce_json(method, params, req, |v| reduce(red, v)),
+            (AnyFleet::A(f), None) => env.rt.block_on(f.broadcast_json(method, params, req)).into_iter().map(|(k, r)| (k, returned_json(r))).collect(),
+            (AnyFleet::A(f), Some(red)) => env.rt.block_on(f.map_reduce_json(method, params, req, |v| reduce(red, v))),
+        }
+    }
+    fn filter_nodes(&self, env: &Env, req: &[String]) -> Vec<String> {
+        match self {
+            AnyFleet::B(f) => f.filter_nodes(req).into_iter().map(|n| n.name).collect(),
+            AnyFleet::A(f) => env.rt.block_on(f.filter_nodes(req)).into_iter().map(|n| n.name).collect(),
+        }
+    }
+    fn remove_node(&self, env: &Env, name: &str) -> bool {
+        match self {
+            AnyFleet::B(f) => f.remove_node(name),
+            AnyFleet::A(f) => env.rt.block_on(f.remove_node(name)),
+        }
+    }
+    fn add_node(&self, env: &Env, cfg: NodeConfig) -> bool {
+        match self {
+            AnyFleet::B(f) => f.add_node(cfg).is_ok(),
+            AnyFleet::A(f) => env.rt.block_on(f.add_node(cfg)).is_ok(),
+        }
+    }
+    /// `call_json` on a name: `None` if the fleet does not know the node
+    fn try_call(&self, env: &Env, name: &str, method: &str) -> Option<Returned> {
+        match self {
+            AnyFleet::B(f) => f.call_json(name, method, None).ok().map(returned_json),
+            AnyFleet::A(f) => env.rt.block_on(f.call_json(name, method, None)).ok().map(returned_json),
+        }
+    }
+}
+
+fn run_bc(env: &Env, idx: &str, kind: &str, max: usize, nodes: &[BcNode], req: &[String], map_reduce: bool, pv: &Pv) -> CaseOut {
     let mut out = CaseOut::default();
     if nodes.iter().any(|n| n.down) && env.sniffer.is_none() {
         out.skip = Some("no_sniffer".into());
@@ -1519,51 +1933,44 @@ fn run_bc(env: &Env, idx: &str, kind: &str, max: usize, nodes: &[BcNode], req: &
     for n in nodes {
         let script = n.script.clone();
         match Node::new(script, env.sniffer.clone()) {
-            Ok(x) => live.push(x),
+            Ok(x) => {
+                x.set_app_code_for(&format!("{idx}{}", n.name));
+                live.push(x)
+            }
             Err(e) => {
                 out.skip = Some(format!("node_{:?}:{e}", e.kind()));
                 return out;
             }
         }
     }
-    let configs: Vec<NodeConfig> = nodes
-        .iter()
-        .zip(&live)
-        .map(|(n, x)| {
-            // the per-node timeout: short for a node that never answers, generous for the others
-            let t = if n.script.contains(&Beh::Silent) { T_NODE } else { T_BCAST };
-            NodeConfig::new(node_host(), x.port()).unwrap().with_name(n.name.clone()).unwrap().with_tags(n.tags.clone()).with_timeout(t).unwrap()
-        })
-        .collect();
-    let fleet = AnyFleet::new(kind, configs, max, Duration::from_millis(10));
-    let params = serde_json::json!({"x": 1});
-    let method = format!("/bc{}", live.first().map_or(0, |x| x.sh.id));
+    // the strings actually used: names and tags of the op line are tokens, mapped injectively
+    let real_name = |tok: &str| pv.name(tok);
+    let token_of = |real: &str| nodes.iter().map(|n| n.name.clone()).find(|t| pv.name(t) == real).unwrap_or_else(|| format!("?{real}"));
+    let real_req: Vec<String> = req.iter().map(|t| pv.tag(t)).collect();
+    let short = |n: &BcNode| n.script.contains(&Beh::Silent);
+    let config_of = |i: usize| -> NodeConfig {
+        let (n, x) = (&nodes[i], &live[i]);
+        // the per-node timeout: short for a node that never answers, generous (and different per node) for the others
+        let t = if short(n) { pv.t_node() } else { T_BCAST + Duration::from_millis(100 * i as u64) };
+        NodeConfig::new(node_host(), x.port()).unwrap().with_name(real_name(&n.name)).unwrap().with_tags(n.tags.iter().map(|t| pv.tag(t))).with_timeout(t).unwrap()
+    };
+    let configs: Vec<NodeConfig> = (0..nodes.len()).collect::<Vec<_>>().into_iter().map(config_of).collect();
+    let fleet = AnyFleet::new(kind, configs, max, pv);
+    let held = fleet.clone();
+    let params_value = pv.params();
+    let params: Option<&serde_json::Value> = if pv.pa == 4 { None } else { Some(&params_value) };
+    let method = pv.method(&format!("/bc{}", live.first().map_or(0, |x| x.sh.id)));
     for x in &live {
         x.set_token(&method);
     }
     let method = method.as_str();
-    let cls = |r: repe::RemoteResult<serde_json::Value>| (r.node.clone(), class_of_result(&r.value, &r.error));
-    let (mut results, mut filtered): (Vec<(String, String)>, Vec<String>) = match &fleet {
-        AnyFleet::B(f) => (
-            if map_reduce {
-                // `map_reduce_json` = the same broadcast, reduced: the reducer must see one result per addressed node
-                f.map_reduce_json(method, Some(&params), req, |v| v.into_iter().map(cls).collect())
-            } else {
-                f.broadcast_json(method, Some(&params), req).into_iter().map(|(k, r)| (k, class_of_result(&r.value, &r.error))).collect()
-            },
-            f.filter_nodes(req).into_iter().map(|n| n.name).collect(),
-        ),
-        AnyFleet::A(f) => env.rt.block_on(async {
-            (
-                if map_reduce {
-                    f.map_reduce_json(method, Some(&params), req, |v| v.into_iter().map(cls).collect()).await
-                } else {
-                    f.broadcast_json(method, Some(&params), req).await.into_iter().map(|(k, r)| (k, class_of_result(&r.value, &r.error))).collect()
-                },
-                f.filter_nodes(req).await.into_iter().map(|n| n.name).collect(),
-            )
-        }),
-    };
+    let k = kind_name(kind);
+    // ---- round 1: the broadcast of the op line (what the model predicts) ----
+    let t0 = Instant::now();
+    let returned = fleet.broadcast(env, method, params, &real_req, if map_reduce { Some(Reducer::Collect) } else { None });
+    let took = t0.elapsed();
+    let mut results: Vec<(String, String)> = returned.iter().map(|(n, r)| (token_of(n), r.class.clone())).collect();
+    let mut filtered: Vec<String> = fleet.filter_nodes(env, &real_req).iter().map(|n| token_of(n)).collect();
     results.sort();
     filtered.sort();
     let mut addressed = vec![];
@@ -1592,13 +1999,18 @@ fn run_bc(env: &Env, idx: &str, kind: &str, max: usize, nodes: &[BcNode], req: &
     }
     addressed.sort();
     // direct oracle: exactly the nodes carrying all requested tags, one result each
-    let mut expect: Vec<String> = nodes.iter().filter(|n| req.iter().all(|t| n.tags.contains(t))).map(|n| n.name.clone()).collect();
-    expect.sort();
-    let k = kind_name(kind);
+    let expect_for = |req: &[String], without: Option<&str>| -> Vec<String> {
+        let mut v: Vec<String> =
+            nodes.iter().filter(|n| Some(n.name.as_str()) != without && req.iter().all(|t| n.tags.contains(t))).map(|n| n.name.clone()).collect();
+        v.sort();
+        v
+    };
+    let expect = expect_for(req, None);
     let ctx = format!(
-        "nodes {:?} requested {:?}: expected {:?}, contacted {:?}, results {:?}, filter_nodes {:?}",
+        "nodes {:?} requested {:?} ({}): expected {:?}, contacted {:?}, results {:?}, filter_nodes {:?}",
         nodes.iter().map(|n| (n.name.as_str(), &n.tags)).collect::<Vec<_>>(),
         req,
+        pv.show(),
         expect,
         addressed,
         results,
@@ -1612,7 +2024,35 @@ fn run_bc(env: &Env, idx: &str, kind: &str, max: usize, nodes: &[BcNode], req: &
         out.fails.push((format!("fleet.{k}.broadcast.results_mismatch"), ctx.clone()));
     }
     if filtered != expect {
-        out.fails.push((format!("fleet.{k}.filter_nodes.mismatch"), ctx));
+        out.fails.push((format!("fleet.{k}.filter_nodes.mismatch"), ctx.clone()));
+    }
+    // the clauses of a call hold for each node's call: at most max_attempts contacts; a node that
+    // answers is contacted once and its result is the reply it sent
+    for (i, (n, x)) in nodes.iter().zip(&live).enumerate() {
+        let log = x.log_from(0);
+        if log.len() > max {
+            out.fails.push((format!("fleet.{k}.attempts.exceeds_max"), format!("{ctx}; node {} was contacted {} times, max_attempts {max}", n.name, log.len())));
+        }
+        let answers = n.script.first().map_or(true, |b| b.is_reply());
+        if answers && log.len() > 1 {
+            if took >= T_BCAST {
+                out.skip = Some("node_lagged".into());
+                return out;
+            }
+            out.fails.push((format!("fleet.{k}.retry_after_reply.broadcast"), format!("{ctx}; node {} answered its first request and was contacted {} times", n.name, log.len())));
+        }
+        if answers && log.len() == 1 {
+            let want = match log[0].beh {
+                Beh::AppErr => format!("{}:{}", x.sh.app_code.load(Ordering::SeqCst), app_error_text(x.sh.id, 0)),
+                _ => reply_detail(x.sh.id, 0),
+            };
+            let got = returned.iter().find(|(nm, _)| *nm == real_name(&n.name)).and_then(|(_, r)| r.detail.clone());
+            if let Some(got) = got {
+                if got != want {
+                    out.fails.push((format!("fleet.{k}.report.not_the_reply"), format!("{ctx}; node {i} ({}) sent {want}, its result holds {got}", n.name)));
+                }
+            }
+        }
     }
     let dash = |v: Vec<String>| if v.is_empty() { "-".to_string() } else { v.join(",") };
     out.obs = Some(format!(
@@ -1622,6 +2062,172 @@ fn run_bc(env: &Env, idx: &str, kind: &str, max: usize, nodes: &[BcNode], req: &
     ));
     out.nontrivial = !expect.is_empty() && expect.len() < nodes.len() || nodes.iter().any(|n| !n.script.is_empty());
     out.counters.push(format!("bc.{k}.nodes{}.targets{}", nodes.len(), expect.len()));
+    pv_counters(pv, &mut out.counters);
+    if !out.fails.is_empty() {
+        return out;
+    }
+    // ---- round 2: the same fleet again, every node healthy now: the twin entry point, another handle,
+    // the request written in another order; optionally after a map_reduce whose reducer panicked ----
+    for x in &live {
+        x.set_healthy();
+    }
+    let handle: &AnyFleet = match pv.cl {
+        0 => &fleet,
+        _ => &held,
+    };
+    let before = std::cell::RefCell::new(live.iter().map(|x| x.log_len()).collect::<Vec<usize>>());
+    let mut req2: Vec<String> = req.iter().rev().cloned().collect();
+    if let Some(first) = req.first() {
+        req2.push(first.clone());
+    }
+    let real_req2: Vec<String> = req2.iter().map(|t| pv.tag(t)).collect();
+    // one more round of requests to exactly `expect`, all answered: what the rounds below must show
+    let round = |what: &str, returned: Option<Vec<(String, Returned)>>, expect: &[String], out: &mut CaseOut| -> bool {
+        for x in &live {
+            if let Err(r) = x.settle() {
+                out.skip = Some(r);
+                return false;
+            }
+        }
+        if let Some(returned) = &returned {
+            // a healthy node with the short timeout answered too late: scheduling, not judged
+            if returned.iter().any(|(nm, r)| r.class == "Io(TimedOut)" && nodes.iter().any(|n| real_name(&n.name) == *nm && short(n))) {
+                out.skip = Some("late_reply".into());
+                return false;
+            }
+        }
+        let mut got: Vec<String> = vec![];
+        for (i, (n, x)) in nodes.iter().zip(&live).enumerate() {
+            let d = x.log_len() - before.borrow()[i];
+            before.borrow_mut()[i] = x.log_len();
+            if d > 0 {
+                got.push(n.name.clone());
+            }
+            if d > max {
+                out.fails.push((format!("fleet.{k}.attempts.exceeds_max"), format!("{what}: node {} was contacted {d} times, max_attempts {max}; {ctx}", n.name)));
+            }
+        }
+        got.sort();
+        if got != expect {
+            out.fails.push((format!("fleet.{k}.broadcast.wrong_targets"), format!("{what}: expected {expect:?}, contacted {got:?}; {ctx}")));
+        }
+        if let Some(returned) = returned {
+            let mut res: Vec<(String, String)> = returned.iter().map(|(n, r)| (token_of(n), r.class.clone())).collect();
+            res.sort();
+            let keys: Vec<String> = res.iter().map(|(k, _)| k.clone()).collect();
+            if keys != expect {
+                out.fails.push((format!("fleet.{k}.broadcast.results_mismatch"), format!("{what}: expected {expect:?}, results {res:?}; {ctx}")));
+            }
+            for (name, class) in &res {
+                if class != "ok" {
+                    out.fails.push((format!("fleet.{k}.recover.broadcast"), format!("{what}: every node is healthy but {name} gave {class}; {ctx}")));
+                }
+            }
+        }
+        true
+    };
+    if map_reduce && pv.by > 0 {
+        let red = [Reducer::PanicString, Reducer::PanicStr, Reducer::PanicOther][(fnv(idx.as_bytes()) % 3) as usize];
+        let r = std::panic::catch_unwind(std::panic::AssertUnwindSafe(|| handle.broadcast(env, method, params, &real_req, Some(red))));
+        out.counters.push(format!("bc.reducer_panicked.{}", r.is_err()));
+        // the property says nothing about a panicking reducer (it unwinds into the caller, after the
+        // fan-out); what is asserted is that the fan-out was the usual one and the fleet works afterwards
+        if !round("map_reduce_json with a panicking reducer", None, &expect, &mut out) {
+            return out;
+        }
+    }
+    let twin = if map_reduce { None } else { Some(if pv.by == 1 { Reducer::Slow } else { Reducer::Collect }) };
+    let returned2 = handle.broadcast(env, method, params, &real_req2, twin);
+    if !round(&format!("second broadcast (request {req2:?}, {})", if map_reduce { "broadcast_json" } else { "map_reduce_json" }), Some(returned2), &expect, &mut out) {
+        return out;
+    }
+    out.counters.push("bc.second_round".into());
+    // ---- round 3: membership changes: remove a node, broadcast, add it again, broadcast ----
+    if pv.mf > 0 && !nodes.is_empty() && out.fails.is_empty() {
+        let j = (fnv(idx.as_bytes()) as usize / 7) % nodes.len();
+        let gone = nodes[j].name.clone();
+        let removed = handle.remove_node(env, &real_name(&gone));
+        let known = fleet.try_call(env, &real_name(&gone), method).is_some();
+        out.counters.push(format!("bc.membership.removed.{removed}.still_callable.{known}"));
+        if known {
+            // (a fleet that still knows the node has just called it)
+            for x in &live {
+                let _ = x.settle();
+            }
+            *before.borrow_mut() = live.iter().map(|x| x.log_len()).collect::<Vec<usize>>();
+        }
+        let r3 = fleet.broadcast(env, method, params, &real_req, None);
+        if !round(&format!("broadcast after remove_node({gone})"), Some(r3), &expect_for(req, Some(&gone)), &mut out) {
+            return out;
+        }
+        let added = fleet.add_node(env, config_of(j));
+        let again = handle.add_node(env, config_of(j));
+        out.counters.push(format!("bc.membership.added.{added}.duplicate_accepted.{again}"));
+        let r4 = handle.broadcast(env, method, params, &real_req2, Some(Reducer::Collect));
+        if !round(&format!("map_reduce_json after add_node({gone})"), Some(r4), &expect, &mut out) {
+            return out;
+        }
+        out.counters.push("bc.membership_round".into());
+    }
+    for x in &live {
+        if let Some(t) = x.trouble() {
+            out.skip = Some(t);
+            out.fails.clear();
+            return out;
+        }
+    }
+    out
+}
+
+// ------------------------------------------------------------------------------------------
+// what the constructors refuse
+// ------------------------------------------------------------------------------------------
+fn run_opts(env: &Env, idx: &str, kind: &str, what: &str) -> CaseOut {
+    let mut out = CaseOut::default();
+    let k = kind_name(kind);
+    let mk = || Node::new(vec![], env.sniffer.clone()).map_err(|e| format!("node_{:?}:{e}", e.kind()));
+    let (n1, n2) = match (mk(), mk()) {
+        (Ok(a), Ok(b)) => (a, b),
+        (Err(e), _) | (_, Err(e)) => {
+            out.skip = Some(e);
+            return out;
+        }
+    };
+    let cfg = |x: &Node, name: &str| NodeConfig::new(node_host(), x.port()).unwrap().with_name(name).unwrap().with_timeout(T_BCAST).unwrap();
+    let opts = |max: usize| FleetOptions { default_timeout: T_BCAST, retry_policy: RetryPolicy { max_attempts: max, delay: Duration::from_millis(1) } };
+    let build = |configs: Vec<NodeConfig>, max: usize| -> Option<AnyFleet> {
+        match kind {
+            "b" => Fleet::with_options(configs, opts(max)).ok().map(AnyFleet::B),
+            _ => AsyncFleet::with_options(configs, opts(max)).ok().map(AnyFleet::A),
+        }
+    };
+    let accepted = match what {
+        "zero" => match build(vec![cfg(&n1, "n")], 0) {
+            None => false,
+            Some(f) => {
+                // a policy of zero attempts was accepted: a call must still report a reply or a transport error
+                let r = f.call(env, "json", "n", &n1.method(), &serde_json::json!({"x": 1}));
+                if r.class == "None" {
+                    out.fails.push((
+                        format!("fleet.{k}.report.neither_reply_nor_error"),
+                        "with_options accepted max_attempts = 0; a call to a healthy node returned neither a value nor an error".into(),
+                    ));
+                }
+                true
+            }
+        },
+        "dup" => build(vec![cfg(&n1, "n"), cfg(&n2, "n")], 2).is_some(),
+        _ => match build(vec![cfg(&n1, "n")], 2) {
+            None => {
+                out.skip = Some("opts_setup".into());
+                return out;
+            }
+            Some(f) => f.add_node(env, cfg(&n2, "n")),
+        },
+    };
+    out.obs = Some(format!("{idx} {}", if accepted { "accepted" } else { "rejected" }));
+    out.counters.push(format!("opts.{k}.{what}"));
+    out.nontrivial = true;
     out
 }
 
@@ -1629,29 +2235,40 @@ fn run_bc(env: &Env, idx: &str, kind: &str, max: usize, nodes: &[BcNode], req: &
 // op lines
 // ------------------------------------------------------------------------------------------
 fn exec(env: &Env, line: &str) -> CaseOut {
-    let w = words(line);
+    let mut w = words(line);
+    // the parameter word may stand anywhere; without it every parameter has its ordinary value
+    let pv = match w.iter().find(|x| x.starts_with("p=")) {
+        None => Pv::default(),
+        Some(x) => match Pv::parse(x) {
+            Some(p) => p,
+            None => return CaseOut { obs: Some(format!("{} bad-op", w.get(1).copied().unwrap_or("?"))), ..Default::default() },
+        },
+    };
+    w.retain(|x| !x.starts_with("p="));
+    let pv = &pv;
     let bad = || CaseOut { obs: Some(format!("{} bad-op", w.get(1).copied().unwrap_or("?"))), ..Default::default() };
     match w.as_slice() {
         ["case", idx, kind, variant, max, seq, ..] if w.len() <= 7 && ["b", "a"].contains(kind) && ["json", "jsonnp", "msg"].contains(variant) => {
             // a 7th word `dead=…` of a recorded op line is what an earlier run observed; it is observed again
             let (Ok(max), Some(seq)) = (max.parse::<usize>(), parse_seq(seq)) else { return bad() };
-            if max == 0 {
+            if max == 0 || max > 1000 {
                 return bad();
             }
-            run_case(env, idx, kind, variant, max, &seq)
+            run_case(env, idx, kind, variant, max, &seq, pv)
         }
         [op @ ("bc" | "mr"), idx, kind, max, nodes, req] if ["b", "a"].contains(kind) => {
             let (Ok(max), Some(nodes)) = (max.parse::<usize>(), parse_bc_nodes(nodes)) else { return bad() };
             let req: Vec<String> = if *req == "-" { vec![] } else { req.split(',').map(|x| x.to_string()).collect() };
-            run_bc(env, idx, kind, max, &nodes, &req, *op == "mr")
+            run_bc(env, idx, kind, max, &nodes, &req, *op == "mr", pv)
         }
+        ["opts", idx, kind, what] if ["b", "a"].contains(kind) && ["zero", "dup", "dupadd"].contains(what) => run_opts(env, idx, kind, what),
         ["life", idx, kind, max, seq, ops, ..] if w.len() <= 7 && ["b", "a"].contains(kind) => {
             let (Ok(max), Some(seq)) = (max.parse::<usize>(), parse_seq(seq)) else { return bad() };
             let ops: Vec<String> = ops.split(',').filter(|x| !x.is_empty()).map(|x| x.to_string()).collect();
-            if max == 0 || ops.is_empty() || !ops.iter().all(|o| ["conn", "disc", "reconn", "health", "call"].contains(&o.as_str())) {
+            if max == 0 || max > 1000 || ops.is_empty() || !ops.iter().all(|o| ["conn", "disc", "reconn", "health", "call"].contains(&o.as_str())) {
                 return bad();
             }
-            run_life(env, idx, kind, max, &seq, &ops)
+            run_life(env, idx, kind, max, &seq, &ops, pv)
         }
         _ => bad(),
     }
@@ -1668,17 +2285,20 @@ fn all_seqs(len: usize) -> Vec<Vec<Beh>> {
 fn gen_cases(rng: &mut Rng, thorough: bool) -> Vec<String> {
     let mut ops = vec![];
     let mut n = 0usize;
+    let mut n_new = 0usize;
     let variants = ["json", "jsonnp", "msg"];
-    let mut push = |ops: &mut Vec<String>, kind: &str, max: usize, seq: &[Beh]| {
+    // every third case has the ordinary value of every parameter (no `p=` word), the others a drawn one
+    let mut push = |ops: &mut Vec<String>, rng: &mut Rng, kind: &str, max: usize, seq: &[Beh]| {
         n += 1;
+        let pw = |rng: &mut Rng, k: usize| if k % 3 == 0 { String::new() } else { format!(" {}", Pv::random_for(rng, seq).show()) };
         if thorough && max <= 2 {
             // every call variant
-            for v in variants {
-                let tag = match v { "json" => "j", "jsonnp" => "n", _ => "m" };
-                ops.push(format!("case c{n}{tag} {kind} {v} {max} {}", show_seq(seq)));
+            for (j, v) in variants.iter().enumerate() {
+                let tag = match *v { "json" => "j", "jsonnp" => "n", _ => "m" };
+                ops.push(format!("case c{n}{tag} {kind} {v} {max} {}{}", show_seq(seq), pw(rng, n + j)));
             }
         } else {
-            ops.push(format!("case c{n} {kind} {} {max} {}", variants[n % 3], show_seq(seq)));
+            ops.push(format!("case c{n} {kind} {} {max} {}{}", variants[n % 3], show_seq(seq), pw(rng, n / 3)));
         }
     };
     // exhaustive part: every sequence of length <= bound
@@ -1687,7 +2307,7 @@ fn gen_cases(rng: &mut Rng, thorough: bool) -> Vec<String> {
         for len in 0..=*bound {
             for seq in all_seqs(len) {
                 for kind in ["b", "a"] {
-                    push(&mut ops, kind, *max, &seq);
+                    push(&mut ops, rng, kind, *max, &seq);
                 }
             }
         }
@@ -1699,7 +2319,49 @@ fn gen_cases(rng: &mut Rng, thorough: bool) -> Vec<String> {
             let len = rng.range(4, max as u64 + 2) as usize;
             let seq: Vec<Beh> = (0..len).map(|_| *rng.pick(&ALL_BEH)).collect();
             let kind = if rng.chance(1, 2) { "b" } else { "a" };
-            push(&mut ops, kind, max, &seq);
+            push(&mut ops, rng, kind, max, &seq);
+        }
+    }
+    // larger bounds (the script ends, then the node answers):
+    // sequences up to length 6 with at most two `silent`
+    for _ in 0..(if thorough { 600 } else { 150 }) {
+        // (not usize::MAX: a fleet — or the model under changed facts — that fails to leave the loop
+        // would then spin for ever instead of being caught at attempt max+1)
+        let max = *rng.pick(&[4usize, 5, 8, 64]);
+        let len = rng.range(0, 6) as usize;
+        let mut seq: Vec<Beh> = (0..len).map(|_| *rng.pick(&ALL_BEH)).collect();
+        let mut silents = 0;
+        for b in seq.iter_mut() {
+            if *b == Beh::Silent {
+                silents += 1;
+                if silents > 2 {
+                    *b = Beh::Atc;
+                }
+            }
+        }
+        let kind = if rng.chance(1, 2) { "b" } else { "a" };
+        push(&mut ops, rng, kind, max, &seq);
+    }
+    // the twin constructor `new` (default options: 3 attempts, 1 s between them): scripts with at most
+    // one failing attempt, no `silent` (each retry costs the default delay)
+    {
+        let firsts = [Beh::Refused, Beh::Atc, Beh::Idle, Beh::Malformed, Beh::AppErr, Beh::Success];
+        for (i, b) in firsts.iter().enumerate() {
+            for kind in ["b", "a"] {
+                n_new += 1;
+                let mut pv = Pv::random_for(rng, &[*b]);
+                pv.op = 1;
+                pv.dl = 0;
+                let seq = if i % 2 == 0 { vec![*b] } else { vec![*b, Beh::Success] };
+                ops.push(format!("case d{n_new} {kind} {} 3 {} {}", ["json", "jsonnp", "msg"][n_new % 3], show_seq(&seq), pv.show()));
+            }
+        }
+    }
+    // what the constructors must refuse for the hypotheses of the theorems to hold (max_attempts >= 1,
+    // distinct node names): if one is accepted, the clause it protects is judged on the result
+    for (i, what) in ["zero", "dup", "dupadd"].iter().enumerate() {
+        for kind in ["b", "a"] {
+            ops.push(format!("opts o{i}{kind} {kind} {what}"));
         }
     }
     // connection management and health check mixed with calls: every operation sequence up to length 3
@@ -1724,7 +2386,8 @@ fn gen_cases(rng: &mut Rng, thorough: bool) -> Vec<String> {
                 l += 1;
                 let kind = if l % 2 == 0 { "b" } else { "a" };
                 let max = 1 + l % 3;
-                ops.push(format!("life l{l} {kind} {max} {} {}", show_seq(sc), os.join(",")));
+                let pw = if l % 3 == 0 { String::new() } else { format!(" {}", Pv::random_for(rng, sc).show()) };
+                ops.push(format!("life l{l} {kind} {max} {} {}{pw}", show_seq(sc), os.join(",")));
             }
         }
     }
@@ -1738,6 +2401,16 @@ fn gen_cases(rng: &mut Rng, thorough: bool) -> Vec<String> {
             .collect();
         let mut reqs: Vec<String> = subsets.iter().map(|s| if s.is_empty() { "-".to_string() } else { s.join(",") }).collect();
         reqs.push(format!("{0},{0}", universe[0])); // a duplicated tag is one tag
+        // the request is a list in the caller's order: descending, with a repeat in the middle, and with
+        // a tag no node carries
+        for sub in subsets.iter().filter(|x| x.len() >= 2) {
+            let mut r: Vec<&str> = sub.clone();
+            r.reverse();
+            reqs.push(r.join(","));
+            reqs.push(format!("{},{}", sub.join(","), sub[0]));
+        }
+        reqs.push("z".to_string());
+        reqs.push(format!("z,{}", universe[0]));
         for nn in 1..=maxn {
             let total = subsets.len().pow(nn as u32);
             for code in 0..total {
@@ -1775,7 +2448,8 @@ fn gen_cases(rng: &mut Rng, thorough: bool) -> Vec<String> {
                         })
                         .collect();
                     let op = if m % 3 == 0 { "mr" } else { "bc" };
-                    ops.push(format!("{op} b{m} {kind} {max} {} {req}", nodes.join(";")));
+                    let pw = if m % 3 == 1 { String::new() } else { format!(" {}", Pv::random(rng).show()) };
+                    ops.push(format!("{op} b{m} {kind} {max} {} {req}{pw}", nodes.join(";")));
                 }
             }
         }
@@ -1795,7 +2469,7 @@ fn main() {
     out.extra.insert("sniffer".into(), serde_json::json!(env.sniffer.is_some()));
     out.extra.insert("node_timeout_ms".into(), serde_json::json!(T_NODE.as_millis() as u64));
     out.extra.insert("retry_delay_ms".into(), serde_json::json!(DELAY.as_millis() as u64));
-    out.rule = "case = fresh Fleet/AsyncFleet + one scripted node: calls until the script is consumed (at most 2*len+1), then a healthy phase of up to 3 calls; all behaviour sequences over the 7-letter alphabet up to length max+2 (quick: max 1 up to length 3, max 2 up to length 4, max 3 up to length 3 + 300 sampled sequences of length 4-5; thorough: max 1..3 up to length max+2, exhaustive), both fleets, call variants json/jsonnp/msg in rotation (thorough: all three for max 1,2); life = every sequence (length 1-3) of connect_all / disconnect_all / reconnect_disconnected / health_check / call against node scripts of length <= 2 without silent (quick: 8 sampled scripts each; thorough: all 43), then the healthy phase; bc / mr (map_reduce_json) = every assignment of tag subsets to up to 3 (thorough 4) nodes x every requested subset (+ one duplicated tag), every 7th with a refusing node, every 5th with a node that is silent on every attempt, every 11th with a node answering an application error. Distinct by op line; non-trivial = a call retried, hit a dead cached client, or returned an error / a broadcast that selects a proper non-empty subset or has a refusing node".into();
+    out.rule = "case = fresh Fleet/AsyncFleet + one scripted node: calls until the script is consumed (at most 2*len+1), then a healthy phase of up to 3 calls; all behaviour sequences over the 7-letter alphabet up to length max+2 (quick: max 1 up to length 3, max 2 up to length 4, max 3 up to length 3 + 300 sampled sequences of length 4-5; thorough: max 1..3 up to length max+2, exhaustive) + sampled sequences up to length 6 for max_attempts 4, 5, 8, 64 (quick 150, thorough 600) + 12 cases through Fleet::new / AsyncFleet::new (default options), both fleets, call variants json/jsonnp/msg in rotation (thorough: all three for max 1,2); life = every sequence (length 1-3) of connect_all / disconnect_all / reconnect_disconnected / health_check / call against node scripts of length <= 2 without silent (quick: 8 sampled scripts each; thorough: all 43), then the healthy phase; bc / mr (map_reduce_json) = every assignment of tag subsets to up to 3 (thorough 4) nodes x every requested subset, each subset also reversed and with a repeat, one duplicated tag, a tag no node carries; every 7th with a refusing node, every 5th with a node that is silent on every attempt, every 11th with a node answering an application error; after the judged broadcast every node is healthy and the same fleet is used again through the twin entry point (after a panicking reducer in some mr cases) and, in about a fifth of the cases, after remove_node / add_node; opts = what the constructors must refuse (max_attempts 0, duplicate names at construction and at add_node). Two cases in three carry a word p= with drawn values of the parameters the property does not depend on (distribution: param.*). Distinct by op line; non-trivial = a call retried, hit a dead cached client, or returned an error / a broadcast that selects a proper non-empty subset or has a refusing node".into();
     let mut ops: Vec<String> = match args.replay_ops() {
         Some(ops) => ops,
         None => gen_cases(&mut rng, args.thorough()),
@@ -1889,6 +2563,9 @@ fn main() {
         let r = r.unwrap_or_else(|| CaseOut { skip: Some("harness_panic:worker".into()), ..Default::default() });
         if let Some(reason) = &r.skip {
             out.count(&format!("skipped.{}", reason.split(':').next().unwrap_or("?")));
+            if std::env::var("FLEET_TEST_VERBOSE").is_ok() {
+                eprintln!("skipped ({reason}): {line}");
+            }
             continue;
         }
         for c in &r.counters {
